@@ -70,6 +70,8 @@ type Contract struct {
 	// meaning to function-typed parameters; see spec.go.
 	ReplayReq []string // extra input restrictions for the replay sweep (evaluation cost)
 	InstCounters bool   // instantiate quantified hypotheses at the counters of enclosing loops (and at 0)
+	LogicalDef   bool              // `logical-definitional`: the requires clauses mentioning the logical variables only define them (witnesses always exist)
+	LogicalTypes map[string]string // optional Go type expression of a logical variable (default int)
 	Logical    []string // logical (ghost, universally quantified) integer variables
 	Footprint  []string // worker closure: [lo, hi) interval of work items it owns exclusively
 	ForkJoin   []string // spawner: lo, hi of the worker indices, total number of work items, witness(x)
@@ -361,8 +363,20 @@ func (cs *ContractSet) parseFile(fset *token.FileSet, pkgPath string, f *ast.Fil
 			}
 		case "inst-counters":
 			cur.InstCounters = true
+		case "logical-definitional":
+			cur.LogicalDef = true
 		case "logical":
-			cur.Logical = append(cur.Logical, strings.Fields(rest)...)
+			// `logical n m` (integers) or `logical f : func(int, int) T` (a typed logical variable)
+			if i := strings.Index(rest, ":"); i >= 0 {
+				name := strings.TrimSpace(rest[:i])
+				cur.Logical = append(cur.Logical, name)
+				if cur.LogicalTypes == nil {
+					cur.LogicalTypes = map[string]string{}
+				}
+				cur.LogicalTypes[name] = strings.TrimSpace(rest[i+1:])
+			} else {
+				cur.Logical = append(cur.Logical, strings.Fields(rest)...)
+			}
 		case "footprint":
 			cur.Footprint = splitTop(rest, ';')
 		case "forkjoin":
